@@ -285,11 +285,19 @@ func checkValid(c *vf.Ctx, t tcase) {
 	var key any
 	var cert *x509.Certificate
 	var err error
-	if p, v, st := vf.Protect(func() { key, cert, err = pkcs12.Decode(t.pfx, t.pwc.pw) }); p {
+	// hardening A: the package sees a private copy of the file inside a sentinel frame (spare capacity
+	// behind the slice or cap == len, alternating); it must leave it intact, and the caller wipes it
+	// as soon as the call has returned - before looking at the results.
+	fpfx, gpfx := guard(t.pfx, len(t.pfx)%2 == 0)
+	if p, v, st := vf.Protect(func() { key, cert, err = pkcs12.Decode(gpfx, t.pwc.pw) }); p {
 		c.Violation("Decode panics on a valid PFX"+tag, detail(map[string]any{"panic": fmt.Sprint(v), "stack": st}))
 		return
 	}
 	c.Eval(1)
+	if !intact(fpfx, t.pfx) {
+		c.Violation("Decode writes to the caller's PFX buffer or its spare capacity"+tag, detail(nil))
+	}
+	wipe(fpfx)
 	switch {
 	case len(t.exp.moreCerts) > 0:
 		// documented: Decode assumes one certificate and one key; the result is only tallied
@@ -315,11 +323,16 @@ func checkValid(c *vf.Ctx, t tcase) {
 		c.Outcome("Decode ok " + t.source)
 	}
 	var blocks []*pem.Block
-	if p, v, st := vf.Protect(func() { blocks, err = pkcs12.ToPEM(t.pfx, t.pwc.pw) }); p {
+	fpfx, gpfx = guard(t.pfx, len(t.pfx)%2 == 1)
+	if p, v, st := vf.Protect(func() { blocks, err = pkcs12.ToPEM(gpfx, t.pwc.pw) }); p {
 		c.Violation("ToPEM panics on a valid PFX"+tag, detail(map[string]any{"panic": fmt.Sprint(v), "stack": st}))
 		return
 	}
 	c.Eval(1)
+	if !intact(fpfx, t.pfx) {
+		c.Violation("ToPEM writes to the caller's PFX buffer or its spare capacity"+tag, detail(nil))
+	}
+	wipe(fpfx)
 	switch {
 	case err != nil && nonBMP:
 		c.Outcome("ToPEM refuses the non-BMP password")
@@ -446,6 +459,10 @@ func run(c *vf.Ctx) {
 		"plus OpenSSL-written files with -name \"\" / -CSP \"\" (embedded and live): Decode exact, ToPEM headers as derived by the reference decoder, error allowed only for malformed values; " +
 		"(3) wrong passwords confirmed wrong by the model for every case; (4) malformed-with-valid-MAC set; " +
 		"(5) faults: every offset x {0x00,0xFF,b^1} and every truncation of 2 files (thorough: 3 files, two of them with all 255 values); " +
+		"hardening: (A) every Decode / ToPEM call on a valid file gets a private copy of the file in a sentinel frame (spare capacity or cap == len) that must be intact afterwards and is wiped before the returned key, certificate and PEM blocks are compared; " +
+		"(C/E) model files with password length{30,31,32,33,62,63,64,95,127,128,255,256,1023,4095,65535} characters (BMP encodings around multiples of the 64-octet KDF block), salt length{0,7,63,127,128,129,255,256,1000,65536} x password{cjk,empty}, iterations{65535,65536,65537 (thorough + 2^20-1, 2^20 = the package limit)}, " +
+		"and salts searched so that KDF step 6.C (I_j+B+1) gives a sum with 1 and with 2 leading zero octets, and an overflow whose remainder starts with a zero octet x password{a,cjk,empty} x iterations{1,2}; " +
+		"(D) every history of 3 Decode+ToPEM calls over {3 valid files, empty password as empty string (retry path), empty password as 00 00, wrong password, bad padding with valid MAC}; " +
 		"non-trivial = distinct (source,password class,iterations,key,ciphers,salt class,layout) decoded to the exact key+certificate, and distinct (file,offset) whose fault is detected; " +
 		"oracle = fixed key/certificate fixtures + verif/ref/p12ref (validated against OpenSSL's PKCS12_key_gen_uni KATs, the classic smeg/queeg vectors, and openssl reading its output)")
 	c.Assume("crypto/x509 parses the PKCS#8 / certificate fixtures correctly (expected values); crypto/des, crypto/sha1, crypto/hmac are correct; RC2 per verif/ref/rc2ref")
@@ -578,6 +595,10 @@ func run(c *vf.Ctx) {
 	cases = append(cases, attrCases(c, keys)...)
 	c.Set("model_attribute_files", len(cases)-nModel)
 
+	nBefore := len(cases)
+	cases = append(cases, hardeningCases(c, keys)...)
+	c.Set("hardening_files", len(cases)-nBefore)
+
 	c.ParallelFor(len(cases), func(i int) {
 		t := cases[i]
 		checkValid(c, t)
@@ -588,6 +609,7 @@ func run(c *vf.Ctx) {
 	})
 
 	malformed(c, keys)
+	callHistories(c, keys)
 	faults(c, keys, cases)
 	liveOpenSSL(c, keys)
 }
@@ -1117,4 +1139,221 @@ func liveOpenSSL(c *vf.Ctx, keys []keyMat) {
 	}
 	sort.Strings(names)
 	c.Set("openssl_live_files", len(names))
+}
+
+// ---------------------------------------------------------------- hardening helpers
+
+func guard(b []byte, spare bool) (frame, s []byte) {
+	frame = bytes.Repeat([]byte{0xA5}, 8+len(b)+24)
+	copy(frame[8:], b)
+	if spare {
+		return frame, frame[8 : 8+len(b)]
+	}
+	return frame, frame[8 : 8+len(b) : 8+len(b)]
+}
+
+func intact(frame, orig []byte) bool {
+	for i, v := range frame {
+		if i >= 8 && i < 8+len(orig) {
+			if v != orig[i-8] {
+				return false
+			}
+		} else if v != 0xA5 {
+			return false
+		}
+	}
+	return true
+}
+
+func wipe(frame []byte) {
+	for i := range frame {
+		frame[i] ^= 0xFF
+	}
+}
+
+// leadingZeros returns how many leading octets of (blk + B + 1) are zero when the sum does NOT
+// overflow 2^(8*len) (the case in which a big-integer implementation gets a short byte string), and
+// whether it overflows.
+func addInfo(blk, B []byte) (zeros int, overflow bool) {
+	sum := make([]byte, len(blk))
+	carry := 1
+	for k := len(blk) - 1; k >= 0; k-- {
+		x := int(blk[k]) + int(B[k]) + carry
+		sum[k] = byte(x)
+		carry = x >> 8
+	}
+	for zeros < len(sum) && sum[zeros] == 0 {
+		zeros++
+	}
+	return zeros, carry == 1
+}
+
+// searchSalt finds (deterministically, independent of the seed) an 8-octet salt for which step 6.C
+// of RFC 7292 B.2 (I_j = I_j + B + 1 mod 2^512, ID = 1, r iterations) gives, for the salt block, a
+// sum with exactly `zeros` leading zero octets without overflow (overflow=false), or an overflowing
+// sum whose low 512 bits start with a zero octet (overflow=true).
+func searchSalt(bmpPassword []byte, r, zeros int, overflow bool) []byte {
+	D := bytes.Repeat([]byte{1}, 64)
+	var P []byte
+	if len(bmpPassword) > 0 {
+		P = make([]byte, 64*((len(bmpPassword)+63)/64))
+		for i := range P {
+			P[i] = bmpPassword[i%len(bmpPassword)]
+		}
+	}
+	for n := uint64(0); ; n++ {
+		salt := make([]byte, 8)
+		for i := 2; i < 8; i++ {
+			salt[i] = byte(n >> (8 * uint(i-2)))
+		}
+		if overflow {
+			salt[0], salt[1] = byte(0xF0|n&0xF), byte(n>>4)
+		}
+		S := bytes.Repeat(salt, 8)
+		h := sha1.Sum(append(append(append([]byte{}, D...), S...), P...))
+		for k := 2; k <= r; k++ {
+			h = sha1.Sum(h[:])
+		}
+		B := make([]byte, 64)
+		for k := range B {
+			B[k] = h[k%20]
+		}
+		z, ov := addInfo(S, B)
+		if ov == overflow && ((!overflow && z == zeros) || (overflow && z >= 1)) {
+			return salt
+		}
+	}
+}
+
+// hardeningCases: further model-built files.
+//
+//	C/E  password lengths (characters) whose BMP encoding is just below / exactly / just above a
+//	     multiple of the KDF block (64 octets) up to 65535 characters; salt lengths 0, 7, 63, 127..129,
+//	     255, 256, 1000, 65536; iteration counts 65535..65537 (thorough: the package limit 2^20)
+//	E    salts searched so that the big-integer addition of KDF step 6.C yields a short result (1 and 2
+//	     leading zero octets) resp. an overflow whose remainder starts with a zero octet
+func hardeningCases(c *vf.Ctx, keys []keyMat) []tcase {
+	var out []tcase
+	pairs := []struct {
+		name      string
+		cert, key p12ref.PBE
+	}{{"rc2+3des", p12ref.PBERC240, p12ref.PBE3DES}, {"3des+3des", p12ref.PBE3DES, p12ref.PBE3DES}, {"rc2+rc2", p12ref.PBERC240, p12ref.PBERC240}}
+	n := 0
+	add := func(label string, pwc pwClass, it, macIt int, cs, ks, ms []byte) {
+		km := &keys[n%len(keys)]
+		pr := pairs[n%len(pairs)]
+		if strings.HasPrefix(label, "kdf-add") {
+			pr = pairs[1]
+		}
+		n++
+		o := p12ref.Options{Password: pwc.pw, CertPBE: pr.cert, KeyPBE: pr.key, Iter: it, MacIter: macIt, CertSalt: cs, KeySalt: ks, MacSalt: ms,
+			FriendlyName: "h " + km.name, LocalKeyID: sha1Of(km.certDER), KeyPKCS8: km.pkcs8, CertDER: km.certDER}
+		out = append(out, tcase{label: fmt.Sprintf("model hardening %s key=%s pbe=%s", label, km.name, pr.name), source: "model", pwc: pwc, pfx: p12ref.Build(o),
+			exp: expect{km: km, name: o.FriendlyName, keyID: o.LocalKeyID}})
+	}
+	alphabet := []rune("aé密Z한！€9")
+	for _, nch := range []int{30, 31, 32, 33, 62, 63, 64, 95, 127, 128, 255, 256, 1023, 4095, 65535} {
+		r := make([]rune, nch)
+		for i := range r {
+			r[i] = alphabet[(i+nch)%len(alphabet)]
+		}
+		pwc := pwClass{fmt.Sprintf("chars%d", nch), string(r)}
+		add("password-length", pwc, 2, 2, c.Bytes("hcs", nch, 8), c.Bytes("hks", nch, 8), c.Bytes("hms", nch, 8))
+	}
+	for _, sl := range []int{0, 7, 63, 127, 128, 129, 255, 256, 1000, 65536} {
+		for _, pwc := range []pwClass{passwords[4], passwords[0]} {
+			add(fmt.Sprintf("salt-length=%d", sl), pwc, 2, 3, c.Bytes("hcs2", sl, sl), c.Bytes("hks2", sl, sl), c.Bytes("hms2", sl, sl))
+		}
+	}
+	its := []int{65535, 65536, 65537}
+	if c.Thorough {
+		its = append(its, 1<<20-1, 1<<20)
+	}
+	for i, it := range its {
+		add(fmt.Sprintf("iterations=%d", it), passwords[1+i%4], it, it, c.Bytes("hcs3", it, 8), c.Bytes("hks3", it, 8), c.Bytes("hms3", it, 8))
+	}
+	for _, pwc := range []pwClass{passwords[1], passwords[4], passwords[0]} {
+		bmp := p12ref.BMPPassword(pwc.pw)
+		for _, r := range []int{1, 2} {
+			for _, sh := range []struct {
+				zeros    int
+				overflow bool
+			}{{1, false}, {2, false}, {0, true}} {
+				salt := searchSalt(bmp, r, sh.zeros, sh.overflow)
+				add(fmt.Sprintf("kdf-add zeros=%d overflow=%v iter=%d", sh.zeros, sh.overflow, r), pwc, r, r, salt, salt, c.Bytes("hms4", r, 8))
+			}
+		}
+	}
+	return out
+}
+
+// callHistories (D): Decode and ToPEM are functions. Every sequence of 3 calls over an alphabet of
+// (file, password) pairs - valid files of different shape, the empty-password file that needs the
+// "empty octet string" retry, a wrong password, a file with bad padding and a valid MAC - must give
+// at every position what the call gives on its own.
+func callHistories(c *vf.Ctx, keys []keyMat) {
+	mk := func(i int, pw string, raw bool, pbe p12ref.PBE, pad func([]byte) []byte) []byte {
+		km := &keys[i%len(keys)]
+		o := p12ref.Options{Password: pw, UseRawPassword: raw, CertPBE: pbe, KeyPBE: p12ref.PBE3DES, Iter: 2, MacIter: 2,
+			CertSalt: c.Bytes("hh-cs", i, 8), KeySalt: c.Bytes("hh-ks", i, 20), MacSalt: c.Bytes("hh-ms", i, 8),
+			FriendlyName: "hist", LocalKeyID: []byte{byte(i)}, KeyPKCS8: km.pkcs8, CertDER: km.certDER, KeyPad: pad}
+		return p12ref.Build(o)
+	}
+	badPad := func(plain []byte) []byte { // padding octets 00
+		p := 8 - len(plain)%8
+		return append(append([]byte{}, plain...), make([]byte, p)...)
+	}
+	type in struct {
+		name string
+		pfx  []byte
+		pw   string
+		km   *keyMat // nil: must fail
+		inc  bool    // must fail with ErrIncorrectPassword
+	}
+	alpha := []in{
+		{"rsa1024 RC2 cjk", mk(0, passwords[4].pw, false, p12ref.PBERC240, nil), passwords[4].pw, &keys[0], false},
+		{"p256 3DES empty password as empty string", mk(2, "", true, p12ref.PBE3DES, nil), "", &keys[2], false},
+		{"rsa2048 3DES ascii40", mk(1, passwords[2].pw, false, p12ref.PBE3DES, nil), passwords[2].pw, &keys[1], false},
+		{"rsa1024 3DES empty password as 00 00", mk(3, "", false, p12ref.PBE3DES, nil), "", &keys[0], false},
+		{"wrong password", mk(0, passwords[4].pw, false, p12ref.PBERC240, nil), "wrong", nil, true},
+		{"bad key padding, valid MAC", mk(2, "pw", false, p12ref.PBE3DES, badPad), "pw", nil, false},
+	}
+	n := len(alpha)
+	c.ParallelFor(n*n*n, func(h int) {
+		seq := []int{h / (n * n), h / n % n, h % n}
+		names := []string{alpha[seq[0]].name, alpha[seq[1]].name, alpha[seq[2]].name}
+		for pos, k := range seq {
+			a := alpha[k]
+			d := map[string]any{"history": names, "position": pos}
+			fp, gp := guard(a.pfx, (h+pos)%2 == 0)
+			var key any
+			var cert *x509.Certificate
+			var blocks []*pem.Block
+			var err1, err2 error
+			if p, v, st := vf.Protect(func() {
+				key, cert, err1 = pkcs12.Decode(gp, a.pw)
+				blocks, err2 = pkcs12.ToPEM(gp, a.pw)
+			}); p {
+				d["panic"], d["stack"] = fmt.Sprint(v), st
+				c.Violation("pkcs12 panics in a call history", d)
+				return
+			}
+			c.Eval(2)
+			if !intact(fp, a.pfx) {
+				c.Violation("pkcs12 writes to the caller's PFX buffer or its spare capacity", d)
+			}
+			wipe(fp)
+			switch {
+			case a.km == nil && (err1 == nil || err2 == nil):
+				c.Violation("pkcs12 accepts a bad file / wrong password at a later position of a call history", d)
+			case a.inc && (err1 != pkcs12.ErrIncorrectPassword || err2 != pkcs12.ErrIncorrectPassword):
+				c.Violation("wrong password at a later position of a call history does not give ErrIncorrectPassword", d)
+			case a.km != nil && (err1 != nil || err2 != nil || !sameKey(key, a.km.key) || cert == nil || !bytes.Equal(cert.Raw, a.km.certDER) || len(blocks) != 2):
+				d["err"] = fmt.Sprint(err1, err2)
+				c.Violation("pkcs12 result depends on earlier calls (valid file not decoded exactly at a later position of a call history)", d)
+			}
+		}
+		c.Nontrivial(fmt.Sprintf("hist/%v", seq))
+	})
+	c.Outcome("call histories checked")
 }
